@@ -34,6 +34,8 @@ def required(tier):
 
 
 def kval(kt, i):
+    if kt == 'tup':
+        return ('c%d' % (i % 3), 'k%d' % i)       # a key that is itself a pair (a currency pair, (exchange, ticker)): one value of one key column
     return ('k%d' % i) if kt == 'str' else i
 
 
@@ -96,6 +98,7 @@ def run_alldef(case, ctx):
     from pyg_base import perdictable, dictable
     from pyg_base._perdictable import join
     kt, on = case['kt'], case['on']
+    case = dict(case, defaults={n: codec.dec(v) for n, v in case['defaults'].items()})        # (a default may be an array: one value, like any other)
     names = list(case['inputs'])
     live = {n: (build_table(s, n, kt) if isinstance(s, dict) and 'rows' in s else codec.dec(s)) for n, s in case['inputs'].items()}
     tabs = [n for n in names if isinstance(case['inputs'][n], dict) and 'rows' in case['inputs'][n]]
@@ -116,7 +119,7 @@ def run_alldef(case, ctx):
     st, res = ctx.call(join, dict(live), list(on), None, dflt)
     ok = st == 'ok' and type(res) is dictable and len(res) == len(exp) and (not exp or (sorted(res.keys()) == sorted(list(on) + names) and all(same(dict(a), b) for a, b in zip(res, exp))))
     ctx.check('join_model', ok, lambda: 'join(%r, on=%r, defaults=%r) with every table defaulted = %s %r\nmodel rows %r' % (case['inputs'], on, case['defaults'], st, [dict(r) for r in res] if st == 'ok' and isinstance(res, dict) else res, exp))
-    ctx.check('operands_unchanged', all(snap_same(snap(dict(live[n])), s_) for n, s_ in snaps.items()) and dflt == case['defaults'], lambda: 'join modified an input table / the defaults')
+    ctx.check('operands_unchanged', all(snap_same(snap(dict(live[n])), s_) for n, s_ in snaps.items()) and list(dflt) == list(case['defaults']) and all(dflt[k_] is case['defaults'][k_] for k_ in dflt), lambda: 'join modified an input table / the defaults')
     # the lifted function over the same inputs
     log = []
     g = {'_log': log}
@@ -134,7 +137,7 @@ def run_alldef(case, ctx):
 
 
 def gen_alldef(rng):
-    kt = rng.choice(['str', 'int'])
+    kt = rng.choice(['str', 'int', 'str', 'int', 'tup'])
     on = rng.choice([['k1'], ['k1'], ['k1', 'k2']])
     universe = [dict(zip(on, t)) for t in ([(i,) for i in range(5)] if len(on) == 1 else [(i, j) for i in range(3) for j in range(2)])]
     names = ['a', 'b', 'c', 'd'][:rng.randint(2, 4)]
@@ -146,6 +149,8 @@ def gen_alldef(rng):
         keys = rng.sample(universe, rng.choice([0, 1, 1, 2, 3, len(universe)]))
         inputs[n] = {'on': on, 'col': rng.choice([n, 'data', 'val']), 'rows': [dict(k, v='%s%s' % (n, ''.join(str(k[c]) for c in on))) for k in keys]}
         defaults[n] = rng.choice([None, 'D' + n, 'D' + n, 0])
+        if rng.random() < 0.12:
+            defaults[n] = {'$arr': ['float64', [1.0, 2.0, 3.0][:rng.choice([1, 2, 3])]]}       # the default is a vector (weights, a curve): every key the input lacks receives that vector
     if not defaults:
         return gen_alldef(rng)
     return {'kind': 'alldef', 'kt': kt, 'on': on, 'inputs': inputs, 'defaults': defaults}
@@ -169,12 +174,21 @@ def run_case(case, ctx):
     g = {'_log': log}
     exec(src, g)
     f = g['f']
+    bound_ = False
+    if case.get('partial_bind') in params and case['partial_bind'] in case['inputs'] and case['partial_bind'] in case['fdefaults']:
+        bound_ = True
+        # the lifted function is a functools.partial that binds, by keyword, a parameter the call also supplies: the supplied input is what f sees
+        import functools
+        f = functools.partial(f, **{case['partial_bind']: 'BOUND'})
+        ctx.cls('lifted_function_is_a_partial')
     inputs_t = {n: (dict(s, rows=[dict(r, v=codec.dec(r['v'])) for r in s['rows']]) if isinstance(s, dict) and 'rows' in s else codec.dec(s)) for n, s in case['inputs'].items()}
     live = {}
     for n, s in inputs_t.items():
         live[n] = build_table(s, n, kt) if isinstance(s, dict) and 'rows' in s else s
     snaps = {n: snap(dict(v)) for n, v in live.items() if isinstance(v, dict)}
     defaults = dict(case['fdefaults'])
+    if bound_:
+        defaults[case['partial_bind']] = 'BOUND'        # what the partial binds is the parameter's default from now on
     if case.get('defaults') is not None:
         defaults = dict(case['defaults'])
     kw = {'on': on[0] if len(on) == 1 and case.get('on_str') else list(on)}
@@ -293,7 +307,7 @@ def run_case(case, ctx):
 
 
 def gen_case(rng):
-    kt = rng.choice(['str', 'int'])
+    kt = rng.choice(['str', 'int', 'str', 'int', 'tup'])
     on = rng.choice([['k1'], ['k1'], ['k1', 'k2'], ['k2', 'k1']])         # 'sorted by key': by the key columns in the order they are given
     nparams = rng.randint(1, 4)
     params = ['a', 'b', 'c', 'd'][:nparams]
@@ -360,6 +374,8 @@ def gen_case(rng):
             keys = rng.sample(universe, rng.choice([0, 1, 2, 3, len(universe)]))
             t['rows'] = [dict(k, v='%s%s' % (p[0], ''.join(str(k[c]) for c in on))) for k in keys]
     case = {'kt': kt, 'on': on, 'on_str': rng.random() < 0.5, 'params': params, 'fdefaults': fdefaults, 'inputs': inputs, 'defaults': explicit_defaults}
+    if rng.random() < 0.1 and inputs:
+        case['partial_bind'] = rng.choice(sorted(inputs))
     if fdefaults and rng.random() < 0.35:
         case['kwonly_defaults'] = True
     if not tables and all(p in inputs for p in params) and rng.random() < 0.5:
